@@ -8,16 +8,21 @@ META = {
                   "invariant over all histories, lifted to what a close + reload shows; go/ast fact tie (encoding/gob on a struct "
                   "with pointer fields and no type tag); correspondence with the real gateway through forced closes (Swamp.Close, "
                   "graceful stop + restart, idle eviction) and re-summon"),
-    "text": ("Hv.C05.reload_view: for ANY facts and every history on a fresh persistent swamp (write interval > 0) the view after "
-             "close + reload is every record passed once through LoadFromByte∘ConvertToByte (invariant DOK: every record of the key "
-             "beacon is waiting for the writer); holds_typeTagged: with a type-tagged encoding that is the identity; "
-             "persistRecord_id_iff: with gob it is the identity exactly on values that are not zero-like (metadata always "
-             "survives); not_holds_gob / zero_table: closed witnesses (0 of each int width, ±0.0, false, \"\", empty bytes, empty "
-             "uint32 slice reload as 'no value'); C05_partial: histories without quirk tags and without zero-like values."),
-    "note": ("Trusted: Lean kernel (propext, Classical.choice, Quot.sound); extract/c05.go; harness/c05.go + c06.go. The lifted "
-             "theorem covers one session on a write-interval>0 swamp; the write-inside-Save path (interval 0), repeated "
-             "close/reopen and the file format itself (C01) are covered by the correspondence run only. encoding/gob's "
-             "zero omission is modelled (validated by the 28-value table case on both write paths), not verified."),
+    "text": ("Statement Hv.C05.Holds: for every persistent kind (write interval 0 and > 0) and every multi-session history (requests "
+             "interleaved with closes), one more close + reload shows the same view. Proved against it: not_holds_gob (a typed zero "
+             "reloads as 'no value'), not_holds_incfail (incFailClean = no: a failed conditional Increment on a reloaded record shows "
+             "metadata the next close loses), not_holds_resurrect (any facts: delete / re-create / delete of a filed key within a "
+             "session brings the old record back) — classify lists exactly the findings these cover. Proved for it, on the "
+             "single-session write-interval>0 fragment (single_of_holds: implied by Holds): reload_view (for ANY facts the view after "
+             "close + reload is every record passed once through LoadFromByte∘ConvertToByte; invariant DOK), single_typeTagged, "
+             "persistRecord_id_iff (gob is the identity exactly on values that are not zero-like; metadata always survives), "
+             "zero_table, C05_partial (histories without quirk tags and without zero-like values)."),
+    "note": ("Trusted: Lean kernel (propext, Classical.choice, Quot.sound); extract/c05.go; harness/c05.go + c06.go. The POSITIVE "
+             "direction is proved for one session on a write-interval>0 swamp only; over several sessions, on the write-inside-Save "
+             "path (interval 0), under the 1 s write ticker (kind p1t) and through CompactSwamp it is TESTED by the correspondence "
+             "run (classify never answers 'holds': the delete path of the model is not governed by an extracted fact yet). The file "
+             "format itself is C01. encoding/gob's zero omission is modelled (validated by the 28-value table case on both write "
+             "paths), not verified."),
     "design_ref": "§8 C05",
 }
 
